@@ -766,6 +766,14 @@ func pathDescent(e callEdge) bool {
 						hasName = true
 					}
 				}
+				// a string helper every result of which contains its parameter (ensureTrailingSlash(dir): dir or dir + "/")
+				if g := x.Call.StaticCallee(); g != nil && g.Blocks != nil && !x.Call.IsInvoke() {
+					for _, pi := range stringPassThrough(g) {
+						if pi < len(x.Call.Args) {
+							walk(x.Call.Args[pi], d+1)
+						}
+					}
+				}
 			}
 		}
 		walk(a, 0)
@@ -774,6 +782,56 @@ func pathDescent(e callEdge) bool {
 		}
 	}
 	return false
+}
+
+// stringPassThrough: indices of the string parameters of g that are part of every value g returns (built with + and
+// constants only, through phis)
+func stringPassThrough(g *ssa.Function) []int {
+	if g.Signature.Results().Len() != 1 {
+		return nil
+	}
+	if b, ok := g.Signature.Results().At(0).Type().Underlying().(*types.Basic); !ok || b.Kind() != types.String {
+		return nil
+	}
+	var out []int
+	for pi, p := range g.Params {
+		if b, ok := p.Type().Underlying().(*types.Basic); !ok || b.Kind() != types.String {
+			continue
+		}
+		var contains func(v ssa.Value, d int) bool
+		contains = func(v ssa.Value, d int) bool {
+			if d > 6 {
+				return false
+			}
+			switch x := v.(type) {
+			case *ssa.Parameter:
+				return x == p
+			case *ssa.BinOp:
+				return x.Op == token.ADD && (contains(x.X, d+1) || contains(x.Y, d+1))
+			case *ssa.Phi:
+				for _, e := range x.Edges {
+					if !contains(e, d+1) {
+						return false
+					}
+				}
+				return len(x.Edges) > 0
+			}
+			return false
+		}
+		all, n := true, 0
+		for _, b := range g.Blocks {
+			if r, ok := b.Instrs[len(b.Instrs)-1].(*ssa.Return); ok && len(r.Results) == 1 {
+				n++
+				if !contains(r.Results[0], 0) {
+					all = false
+				}
+			}
+		}
+		if all && n > 0 {
+			out = append(out, pi)
+		}
+	}
+	return out
 }
 
 func edgeName(e callEdge) string { return fnKey(e.From) + "->" + fnKey(e.To) }
